@@ -150,7 +150,8 @@ type c07Case struct {
 func c07Parse(texts []string) ([]*rules.NetworkRule, *Violation) {
 	out := make([]*rules.NetworkRule, len(texts))
 	for i, s := range texts {
-		r, err := rules.NewNetworkRule(s, 1)
+		// the candidates come from different lists; lower list ids also occur later in the slice
+		r, err := rules.NewNetworkRule(s, []int{3, 1, 2, 1, 5, 2}[i%6])
 		if err != nil {
 			return nil, viol("C07", "C07:harness", "rule %q rejected: %v", s, err)
 		}
@@ -229,6 +230,10 @@ func checkC07(c c07Case, rec *Rec) *Violation {
 	rs, v := c07Parse(c.Rules)
 	if v != nil {
 		return v
+	}
+	// the order does not depend on whether a rule has been evaluated before (patterns are compiled on first use)
+	for _, r := range rs {
+		_ = r.Match(rules.NewRequest("http://x.com/", "http://a.com/", rules.TypeScript))
 	}
 	if c.DocSelect {
 		rec.NonTrivial("doc|"+strings.Join(c.Rules, "\n"), c)
@@ -365,6 +370,29 @@ func c07CheckDocSelection(texts []string) *Violation {
 	return res
 }
 
+// c07WithBadRegex gives some of the rules a pattern that is a regular
+// expression Go cannot compile: such a rule never matches, but its priority is
+// defined by its modifiers like any other rule's.
+func c07WithBadRegex(t *rapid.T, rs []string) []string {
+	if !chance(t, "uncompilable-pattern", 4) {
+		return rs
+	}
+	out := append([]string{}, rs...)
+	seen := map[string]bool{}
+	for _, s := range out {
+		seen[s] = true
+	}
+	for i, s := range out {
+		if chance(t, "bad-regex-here", 2) {
+			if n := strings.Replace(s, "||x.com^", "/x[com/", 1); !seen[n] {
+				seen[n] = true
+				out[i] = n
+			}
+		}
+	}
+	return out
+}
+
 func init() { register("C07", checkC07) }
 
 func TestC07(t *testing.T) {
@@ -497,7 +525,7 @@ func TestC07(t *testing.T) {
 		for i := 0; i < n; i++ {
 			rs = append(rs, texts[rapid.IntRange(0, len(texts)-1).Draw(t, "rule")])
 		}
-		return c07Case{Rules: rs}
+		return c07Case{Rules: c07WithBadRegex(t, rs)}
 	}
 	genSelect := func(t *rapid.T) c07Case {
 		n := rapid.IntRange(2, 6).Draw(t, "n")
@@ -518,6 +546,7 @@ func TestC07(t *testing.T) {
 				rs = append(rs, s)
 			}
 		}
+		rs = c07WithBadRegex(t, rs)
 		c := c07Case{Rules: rs, Select: true}
 		if len(rs) <= 4 && chance(t, "specials", 3) {
 			x := rs[rapid.IntRange(0, len(rs)-1).Draw(t, "twin-of")]
